@@ -63,6 +63,10 @@ def gen(rng, tier):
               "search": [(2, 200)]}[tier]
     for t, per in stress:
         cases.append({"mode": "stress", "threads": t, "per_thread": per, "yields": 6, "kind": "stress%d" % t})
+    # control: the same load on the crate built WITHOUT the preemptive feature (no monitor, no node set)
+    for t, per in {"quick": [(8, 100)], "thorough": [(8, 100), (16, 50), (2, 300)], "search": []}[tier]:
+        cases.append({"mode": "stress", "threads": t, "per_thread": per, "yields": 6, "kind": "control%d" % t,
+                      "features": []})
     return cases
 
 
@@ -105,8 +109,10 @@ def term(case, obs):
             out = "ODiverged"
         else:
             out = "OAborted"
+        pre = "features" not in case or "preemptive" in case["features"]
         return ("{| mc_stress := true; mc_progs := []; mc_evs := []; mc_results := []; mc_nodes_left := 0; "
-                "mc_first_then := None; mc_threads := %d; mc_outcome := %s |}" % (case["threads"], out))
+                "mc_first_then := None; mc_threads := %d; mc_preemptive := %s; mc_outcome := %s |}"
+                % (case["threads"], gbool(pre), out))
     progs = glist([glist([g_instr(i) for i in co["body"]]) for co in case["cos"]])
     ft = case.get("first_then")
     fts = "None" if not ft else "(Some (%d, %d)%%nat)" % (ft[0], ft[1])
@@ -116,11 +122,11 @@ def term(case, obs):
         for r in x["results"]:
             res.append(gz(r[1]) if isinstance(r, list) and str(r[1]).lstrip("-").isdigit() else "(-999)")
         return ("{| mc_stress := false; mc_progs := %s; mc_evs := %s; mc_results := %s; mc_nodes_left := %s; "
-                "mc_first_then := %s; mc_threads := 1; mc_outcome := OClean |}"
+                "mc_first_then := %s; mc_threads := 1; mc_preemptive := true; mc_outcome := OClean |}"
                 % (progs, evs, glist(res), gz(x["nodes_left"]), fts))
     out = "ODiverged" if isinstance(x, str) and x.startswith("diverged") else "OAborted"
     return ("{| mc_stress := false; mc_progs := %s; mc_evs := []; mc_results := []; mc_nodes_left := 0; "
-            "mc_first_then := %s; mc_threads := 1; mc_outcome := %s |}" % (progs, fts, out))
+            "mc_first_then := %s; mc_threads := 1; mc_preemptive := true; mc_outcome := %s |}" % (progs, fts, out))
 
 
 def nontrivial(case, obs, verdict):
